@@ -91,6 +91,8 @@ fn kind_name(op: &Op) -> &'static str {
         Op::Collect { .. } => "Collect",
         Op::UnwindScope { .. } => "UnwindScope",
         Op::ScopeBurst { .. } => "ScopeBurst",
+        Op::CycleBurst { .. } => "CycleBurst",
+        Op::SpanBurst { .. } => "SpanBurst",
     }
 }
 
@@ -168,6 +170,9 @@ fn common_probes(a: &Analysis, v: &mut Verdict) {
     v.probe("fault.span_released_by_unwinding_frame", count_ops(&|o| matches!(o, Op::Finish { unwind: true, .. })));
     v.probe("fault.poll_body_panics", count_ops(&|o| matches!(o, Op::BodyPanic)));
     v.probe("fault.checked_build_runs", a.case.checked as u64);
+    v.probe("fault.many_cycles_bursts", count_ops(&|o| matches!(o, Op::CycleBurst { .. })));
+    v.probe("fault.hot_loop_span_bursts", count_ops(&|o| matches!(o, Op::SpanBurst { .. })));
+    v.probe("fault.adjacent_id_prefixes", a.case.sched.adjacent_ids as u64);
     v.probe("swarm_runs", crate::gen::is_swarm(a.case.seed) as u64);
     v.probe("fault.user_code_panics_inside_call", count_ops(&|o| matches!(o, Op::UserPanic { .. })));
     v.probe("prepared_events_recorded_later", count_ops(&|o| matches!(o, Op::AddEventFrom { .. })));
@@ -367,6 +372,11 @@ fn c01(a: &Analysis, v: &mut Verdict) {
             continue;
         }
         if m.reporter_op.map(|r| !a.hb.before(outer(r), s)).unwrap_or(true) {
+            continue;
+        }
+        // a backlog of thousands of commands takes the collector longer than two (simulated)
+        // report intervals to work through: "about one report interval" is not claimed for that
+        if a.case.ops.iter().any(|r| matches!(r.op, Op::SpanBurst { .. } | Op::ScopeBurst { .. })) {
             continue;
         }
         v.probe("live_windows_checked", 1);
